@@ -95,7 +95,7 @@ EXTRA = {
 
 PROPS_OF = {
     "Gxx": ["C06", "C20"], "Gyy": ["C06", "C09", "C20"], "Gxy": ["C06", "C09", "C20"], "ENBW": ["C06", "C20"], "psd": ["C06", "C20"], "G": ["C20"], "asd": ["C20"], "ps": ["C06", "C20"],
-    "csd": ["C20"], "Gyx": ["C20", "C09"], "Hxy": ["C07", "C20"], "Hyx": ["C20"], "coh": ["C09", "C20"], "ccoh": ["C20", "C09"], "cs": ["C20"], "tf": ["C07", "C20"], "cf": ["C20"], "cf_db": ["C20"],
+    "csd": ["C20"], "Gyx": ["C20", "C09"], "Hxy": ["C06", "C07", "C20"], "Hyx": ["C20"], "coh": ["C06", "C09", "C20"], "ccoh": ["C20", "C09"], "cs": ["C20"], "tf": ["C07", "C20"], "cf": ["C20"], "cf_db": ["C20"],
     "cf_rad": ["C20"], "cf_deg": ["C20"], "cf_rad_unwrapped": ["C20"], "cf_deg_unwrapped": ["C20"], "GyyCx": ["C09"], "GyyRx": ["C09"], "GyySx": ["C09", "C15"],
     "XX_mean": ["C11", "C20"], "YY_mean": ["C11", "C20"], "XY_M2": ["C11", "C20"], "XY_emp_var": ["C11"], "XY_emp_dev": ["C11"], "Gxx_emp_dev": ["C11"], "Gxy_emp_dev": ["C11"],
 }
